@@ -10,6 +10,11 @@ Oracle (class Spec, independent of the Coq model): a finite map id -> (path, tex
 line, undo stack with a dirty token) plus the most-recently-used list, following the property
 text.  Correspondence: the extracted model (coq/BufsDefs.v via ocaml/drv_bufs.ml) runs the same
 expanded command list and prints the same canonical events.
+
+Buffer NAMES are strings exactly as typed (`./a` and `a` are two buffers), FILES are what the spellings denote on disk
+(fskey, mirror of BufsDefs.fskey).  Styles `unnamed` / `spell`: sessions without a file argument in which the unnamed
+buffer is named by `:w <spelling>` (ec_write -- the third place besides bufs_find / bufs_open that decides what a buffer is
+called), left and re-entered by that spelling, by #, by number, by :ew and by another spelling of the same file.
 """
 import json, re, os, copy
 import vlib
@@ -90,6 +95,38 @@ def cmd_text(c):
 
 def hx(s):
     return s.encode().hex() if s else '-'
+
+
+def fskey(p):
+    """The file a path spelling denotes on disk, relative to the session's directory (mirror of BufsDefs.fskey): components
+    between slashes without the empty ones and `.`, `d/..` removed.  ONLY the file system of the reference is keyed by it:
+    buffer names are compared as strings, exactly as typed (`./a` and `a` are two buffers for one file)."""
+    if p == '':
+        return ''
+    ab = p[0] == '/'
+    st = []
+    for c in p.split('/'):
+        if c in ('', '.'):
+            continue
+        if c == '..':
+            if not st:
+                if not ab:
+                    st.append(c)
+            elif st[-1] == '..':
+                st.append(c)
+            else:
+                st.pop()
+        else:
+            st.append(c)
+    k = '/'.join(st)
+    return '/' + k if ab else k
+
+
+SUBDIR = 'sub'                  # the one directory that path spellings `sub/../name` go through (created with a file in it)
+
+
+def spell_variants(base):
+    return ['./' + base, '././' + base, './/' + base, SUBDIR + '/../' + base, './' + SUBDIR + '/../' + base, base]
 
 
 def cmd_token(c):
@@ -224,8 +261,8 @@ class Spec:
             self.mru.insert(0, b.id)
             self.row = 0
         b = self.cur()
-        if b.path in self.fs:
-            new = list(self.fs[b.path])
+        if fskey(b.path) in self.fs:
+            new = list(self.fs[fskey(b.path)])
             if path:
                 b.text = new
             else:
@@ -234,7 +271,7 @@ class Spec:
         if path:
             b.undo, b.redo = [], []
         b.saved = b.tok
-        b.stamp = self.ftime.get(b.path, -1)
+        b.stamp = self.ftime.get(fskey(b.path), -1)
         self.row = max(0, min(self.row, len(b.text) - 1))
         return ev
 
@@ -338,19 +375,20 @@ class Spec:
             path = b.path if path is None else path
             if path == '':
                 return ev
-            exists = path in self.fs
+            key = fskey(path)                       # the file; the NAME of the buffer stays the string as typed
+            exists = key in self.fs
             if not bang:
                 if own:
                     if exists and b.stamp < 0:
                         return ev                   # appeared since the buffer was opened
-                    if exists and self.ftime[path] > b.stamp:
+                    if exists and self.ftime[key] > b.stamp:
                         self.time_dependent = True  # refused only if the clock second changed in between
                 else:
                     if exists:
                         return ev
             self.clock += 1
-            self.fs[path] = list(b.text)
-            self.ftime[path] = self.clock
+            self.fs[key] = list(b.text)
+            self.ftime[key] = self.clock
             if b.path == '':
                 b.path = path
             if b.path == path:
@@ -522,6 +560,8 @@ def run_history(exe, files, args, cmds, timeout=20):
     xcmds, pred, sp = expand(files, args, cmds)
     fbytes = {k: ''.join(l + '\n' for l in v).encode() for k, v in files.items()}
     names = sorted(set(list(files) + list(sp.fs)))
+    if any((SUBDIR + '/') in cmd_text(c) for c in xcmds) or any((SUBDIR + '/') in a for a in args):
+        fbytes[SUBDIR + '/.keep'] = b''            # the directory that the spellings `sub/../name` go through
     r = vlib.run_ex(exe, script_of(xcmds), files=fbytes, args=args, readback=names, timeout=timeout)
     if r.timed_out:
         r = vlib.run_ex(exe, script_of(xcmds), files=fbytes, args=args, readback=names, timeout=3 * timeout)
@@ -579,9 +619,38 @@ def gen_files(rng, nfiles, missing=0):
     return names, files
 
 
-def gen_history(rng, names, files, length, style):
-    """Generation is steered by the reference state so that most commands are meaningful."""
-    args = list(names)
+def gen_spell_files(rng, style):
+    """Files and names of the path-spelling styles.  2..4 base names; each is used under 2..3 spellings (`./n`, `././n`, `.//n`,
+    `sub/../n`, `./sub/../n`, `n`) that the editor keeps apart as buffer NAMES although they are one file.
+    'unnamed': the session starts WITHOUT a file argument, at least one base name has no file yet (so that an unforced `:w`
+    can give the unnamed buffer that name); 'spell': the argument list is one spelling per base name."""
+    bases = list(NAMES)
+    rng.shuffle(bases)
+    bases = bases[:rng.range(2, 4)]
+    files = {}
+    for i, nm in enumerate(bases):
+        if i == 0 and style == 'unnamed':
+            continue
+        if rng.chance(3, 4):
+            files[nm] = ['%s%d' % (nm, j + 1) for j in range(rng.choice([0, 1, 2, 3, 4]))]
+    pool = []
+    groups = {}
+    for nm in bases:
+        v = spell_variants(nm)
+        first = rng.choice(v[:5])                # at least one spelling that is not the plain name
+        rest = [x for x in v if x != first]
+        rng.shuffle(rest)
+        groups[nm] = [first] + rest[:rng.range(1, 2)]
+        pool += groups[nm]
+    args = [] if style == 'unnamed' else [rng.choice(groups[nm]) for nm in bases]
+    return bases, files, pool, groups, args
+
+
+def gen_history(rng, names, files, length, style, args=None, groups=None):
+    """Generation is steered by the reference state so that most commands are meaningful.
+    names: the paths that :e / :w pick from (the argument list unless args is given)."""
+    args = list(names) if args is None else list(args)
+    spell = groups is not None
     sp = Spec(files, args)
     cmds = []
     tagn = [0]
@@ -693,14 +762,82 @@ def gen_history(rng, names, files, length, style):
         if rng.chance(1, 3):
             push(rng.choice([('ou',), ('or',)]))
 
+    # -- path spellings (styles 'unnamed' and 'spell'): the buffer gets its name from `:w spelling` typed in the unnamed buffer
+    #    (ec_write: the third place besides bufs_find / bufs_open that decides what a buffer is called), is left and re-entered
+    #    by the same spelling, by #, by number, and by ANOTHER spelling of the same file (a different name = a second buffer
+    #    that reads the file).
+    def name_by_write():
+        cand = [x for x in names if sp.find(x) is None] or list(names)
+        path = rng.choice(cand)
+        return ('w', 1 if (fskey(path) in sp.fs and rng.chance(4, 5)) else rng.below(2), path)
+
+    def come_back(path, bid):
+        t = rng.below(10)
+        bang = 1 if rng.chance(3, 4) else 0
+        if t < 4:
+            return ('e', bang, 0, 'lit', path)
+        if t < 5:
+            return ('e', bang, 1, 'lit', path)
+        if t < 7 and len(sp.mru) > 1 and sp.bufs[sp.mru[1]].id == bid:
+            return ('e', bang, 0, 'alt', None)
+        if t < 8:
+            return ('bi', bid)
+        same = [x for x in names if fskey(x) == fskey(path) and x != path]
+        if same and t < 9:
+            return ('e', bang, 0, 'lit', rng.choice(same))
+        return ('e', bang, 0, 'lit', path)
+
+    def spell_episode():
+        """(go to / make the unnamed buffer,) give it text, name it by :w, change it again, leave, come back."""
+        if sp.cur().path != '':
+            push(('e', 1, 0, 'lit', '/'))
+        if sp.cur().path != '':
+            return
+        if rng.chance(4, 5):
+            push(pick_edit())
+        push(name_by_write())
+        b = sp.cur()
+        if b.path == '':
+            return                                  # the write was refused (the file exists and the command was not forced)
+        me, mypath = b.id, b.path
+        if rng.chance(2, 3):
+            push(pick_edit())
+        others = [x for x in names if fskey(x) != fskey(mypath)]
+        away = rng.choice(others) if others and rng.chance(5, 6) else '/'
+        push(('e', 1, int(rng.below(5) == 0), 'lit', away))
+        if rng.chance(1, 4):
+            push(pick_edit())
+            push(('e', 1, 0, 'lit', rng.choice(names)))
+        if sp.cur().id != me:
+            push(come_back(mypath, me))
+        if rng.chance(1, 2):
+            push(('ou',))
+        if sp.cur().id == me and rng.chance(1, 3):
+            push(('w', 0, None))
+            if rng.chance(1, 2):
+                push(('q', 0))
+
     if style in ('wa', 'full16') or rng.chance(1, 2):
         push(('wa', 1))
+    if style == 'unnamed':
+        spell_episode()
     if style == 'full16':
         order = list(names)
         rng.shuffle(order)
         for nm in order:
             push(('e', 1, 0, 'lit', nm))
     while len(cmds) < length and not sp.quit:
+        if spell and rng.chance(1, 6):
+            if rng.chance(1, 2):
+                spell_episode()
+            else:
+                named = [i for i in sp.mru[1:] if sp.bufs[i].path]
+                if named:
+                    i = rng.choice(named)
+                    push(come_back(sp.bufs[i].path, i))
+            if sp.time_dependent:
+                break
+            continue
         t = rng.below(112)
         b = sp.cur()
         if t >= 106:
@@ -721,6 +858,8 @@ def gen_history(rng, names, files, length, style):
             if b.path and b.path in sp.fs and sp.ftime[b.path] > b.stamp >= 0:
                 bang = 1
             push(('w', bang, None))
+        elif t < 76 and spell and b.path == '':
+            push(name_by_write())
         elif t < 76:
             # write to another path: a fresh one, or the path of another open buffer / existing file
             if b.path == '' or rng.chance(1, 2):
@@ -748,10 +887,24 @@ def gen_history(rng, names, files, length, style):
                 sp2.do(c)
             sp = sp2
     # final sweep: visit every buffer and look at it, then quit
+    if sp.time_dependent:
+        # (path-spelling episodes only) cut the history back to its last prefix whose outcome does not depend on the clock
+        while cmds:
+            cmds.pop()
+            sp = Spec(files, args)
+            for c in cmds:
+                sp.do(c)
+            if not sp.time_dependent:
+                break
     if not sp.quit:
         push(('wa', 1))
         for i in sorted(sp.mru):
             push(('bi', i))
+        if spell:
+            # ... and by its own name: the buffer reached must be that very buffer, and no file is read
+            for i in sorted(sp.mru):
+                if sp.bufs[i].path:
+                    push(('e', rng.below(2), int(rng.below(4) == 0), 'lit', sp.bufs[i].path))
         push(('wa', 0))
         push(('q', 0))
     return args, cmds
@@ -958,7 +1111,7 @@ def parse_model_answer(line, n):
     for w in tail.split(' '):
         if '=' in w:
             k, _, v = w.partition('=')
-            fs[bytes.fromhex(k).decode()] = [] if v == '-' else [('' if x == '-' else bytes.fromhex(x).decode('latin-1')) for x in v.split(',')]
+            fs[fskey(bytes.fromhex(k).decode())] = [] if v == '-' else [('' if x == '-' else bytes.fromhex(x).decode('latin-1')) for x in v.split(',')]
     return evs, fs
 
 
@@ -1084,6 +1237,14 @@ def run(ctx):
                 continue
             args, cmds = gen_history(r, names, files, r.choice([12, 25, 40]) if ctx.quick else r.choice([12, 25, 40, 80]), style)
             hists.append((style, files, args, cmds))
+        # path spellings: buffers named by `:w ./name` in a session started without a file ('unnamed'), `./name`, `.//name`,
+        # `sub/../name` as arguments of :e / :ew / :w and in the argument list ('spell')
+        for i in range(240 if ctx.quick else 4000):
+            r = rng.fork('s%d' % i)
+            style = 'unnamed' if i % 3 != 2 else 'spell'
+            bases, files, pool, groups, args = gen_spell_files(r, style)
+            args, cmds = gen_history(r, pool, files, r.choice([10, 20, 30]), style, args=args, groups=groups)
+            hists.append((style, files, args, cmds))
 
     def one(h):
         tag, files, args, cmds = h
@@ -1107,7 +1268,7 @@ def run(ctx):
     def as_json(files, args, cmds):
         return {'files': files, 'args': args, 'cmds': [list(c) for c in cmds],
                 'script': script_of(expand(files, args, cmds)[0]).decode('latin-1'),
-                'replay_cmd': 'vi -s -e %s < script   (files as listed)' % ' '.join(args)}
+                'replay_cmd': 'vi -s -e %s < script   (files as listed%s)' % (' '.join(args), '; an empty directory %s/ exists' % SUBDIR if (SUBDIR + '/') in json.dumps([list(c) for c in cmds] + list(args)) else '')}
 
     for hi, (h, o) in enumerate(zip(hists, outs)):
         tag, files, args, cmds = h
